@@ -130,8 +130,7 @@ def load_cases(root: str, prop: str | None = None):
     # generated whole-package behaviour-preserving variants: every check must stay silent on each of them
     from selftest.gen import transform as _T
 
-    for gid, why in (("gen:reformat-all", "every module round-tripped through ast.unparse (comments dropped, layout / quotes / parentheses normalised)"),
-                     ("gen:rename-locals-all", "every renameable local of every function of the package renamed (suffix _q)")):
+    for gid, (_fn, why) in _T.GENERATED.items():
         cases.append({"id": gid, "props": [f"C{i:02d}" for i in range(1, 21)], "kind": "benign", "gen": gid, "source": "generated", "why": why})
     rf = os.path.join(HERE, "reverts.json")
     if os.path.exists(rf):
@@ -151,7 +150,7 @@ def overlay_for(root: str, case) -> dict[str, str] | None:
         import glob
         from selftest.gen import transform as _T
 
-        fn = _T.reformat if case["gen"] == "gen:reformat-all" else _T.rename_locals
+        fn = _T.GENERATED[case["gen"]][0]
         ov = {}
         for path in glob.glob(os.path.join(root, "aiohttp", "**", "*.py"), recursive=True):
             with open(path, encoding="utf-8") as fh:
